@@ -181,7 +181,24 @@ pub fn build_model(c: &ModelCase) -> Vec<u8> {
             RVal::List(
                 c.files
                     .iter()
-                    .map(|(l, p)| RVal::Dict(vec![(b"length".to_vec(), RVal::Int(*l)), (b"path".to_vec(), RVal::Str(p.as_bytes().to_vec()))]))
+                    .enumerate()
+                    .map(|(k, (l, p))| {
+                        let mut e = vec![(b"length".to_vec(), RVal::Int(*l)), (b"path".to_vec(), RVal::Str(p.as_bytes().to_vec()))];
+                        // extra keys seen in the wild inside file entries (BEP47 attr, md5sum, ...), derived from the seed
+                        let x = c.hash_seed.rotate_left(k as u32 * 7);
+                        if x % 3 == 0 {
+                            let attrs: [&[u8]; 6] = [b"p", b"x", b"hp", b"l", b"", b"padding"];
+                            e.push((b"attr".to_vec(), RVal::Str(attrs[(x >> 8) as usize % 6].to_vec())));
+                        }
+                        if x % 5 == 0 {
+                            e.push((b"md5sum".to_vec(), RVal::s("0123456789abcdef0123456789abcdef")));
+                        }
+                        if x % 7 == 0 {
+                            e.push((b"mtime".to_vec(), RVal::Int((x >> 16) as i64 & 0xffff)));
+                        }
+                        e.sort_by(|a, b| a.0.cmp(&b.0));
+                        RVal::Dict(e)
+                    })
                     .collect(),
             ),
         )),
